@@ -4,8 +4,8 @@
     common prefix of the two keys' bit strings ([msb_bits]: most significant bit
     of each byte first). *)
 From Coq Require Import ZArith List Bool.
-From Low Require Import Lib.Bits Lib.BitSeq Lib.Lex Lib.Bytes Lib.LexExtra_sig Model.Sigbits Spec.SigbitsSpec
-  Spec.SigbitsSpec16x Proofs.SigbitsFirstDiff Proofs.SigbitsCountPrefixes Proofs.SigbitsMeaning Proofs.SigbitsCounters Proofs.SigbitsOrder.
+From Low Require Import Lib.Bits Lib.BitSeq Lib.Lex Lib.Bytes Lib.LexExtra_sig Model.Sigbits Model.Sigbits32 Spec.SigbitsSpec
+  Spec.SigbitsSpec16x Proofs.SigbitsFirstDiff Proofs.SigbitsCountPrefixes Proofs.SigbitsMeaning Proofs.SigbitsCounters Proofs.SigbitsOrder Proofs.Sigbits32Proofs.
 Import ListNotations.
 Open Scope Z_scope.
 
@@ -99,7 +99,7 @@ Proof.
   split; [apply strict_ascb_ok; reflexivity|].
   split; [repeat constructor; vm_compute; discriminate|].
   split; [vm_compute; intuition congruence|].
-  split; [eexists; split; vm_compute; reflexivity|].
+  split; [eexists; split; [vm_compute; reflexivity|vm_compute; reflexivity]|].
   vm_compute. reflexivity.
 Qed.
 
@@ -199,6 +199,36 @@ Example C16_widening_nonvacuous :
 Proof.
   cbv zeta. split; [apply keys_okb_ok; reflexivity|].
   split; [vm_compute; intuition congruence|].
-  split; [eexists; split; vm_compute; reflexivity|].
+  split; [eexists; split; [vm_compute; reflexivity|vm_compute; reflexivity]|].
   vm_compute. intuition congruence.
+Qed.
+
+(** * The same functions with Go's int32 arithmetic explicit (Model/Sigbits32.v: an [i32] wrap at
+      [int32(first)], [int32(minl)], [maxitem-1], [d -= min], [counts[d]++], [rst[i]+counts[i]],
+      [keyEnd-1]): under Go's own limits (bit positions, number of keys and m are int32 values)
+      nothing wraps and the two C16 statements hold of that model as well *)
+Theorem C16_FirstDiffBits_int32 : forall keys,
+  keys <> [] -> keys_ok keys -> keys_i32 keys -> FirstDiffBits32 keys = Some (spec_FirstDiffBits keys).
+Proof. exact FirstDiffBits32_exact. Qed.
+Print Assumptions C16_FirstDiffBits_int32.
+
+Theorem C16_CountPrefixes_int32 : forall keys s e m,
+  keys_ok keys -> strict_asc keys -> keys_i32 keys -> zlen keys <= 2147483647 ->
+  0 <= s -> s + 2 <= e -> e <= zlen keys -> 1 <= m <= 2147483647 ->
+  exists sb, New32 keys = Some sb /\ CountPrefixes32 sb s e m = Some (spec_CountPrefixes keys s e m).
+Proof. exact CountPrefixes32_exact. Qed.
+Print Assumptions C16_CountPrefixes_int32.
+
+Example C16_int32_nonvacuous :
+  let keys := [[]; [97]; [97;0]; [97;97;97;97;97;97;97;97;97;0]; [97;97;97;97;97;97;97;97;97;1]; [98]] in
+  keys_ok keys /\ strict_asc keys /\ keys_i32 keys /\
+  FirstDiffBits32 keys = Some [0; 8; 9; 79; 6] /\
+  (exists sb, New32 keys = Some sb /\ CountPrefixes32 sb 1 6 9 = Some (6, [1; 2; 2; 3; 4; 4; 4; 4; 4])).
+Proof.
+  cbv zeta.
+  split; [apply keys_okb_ok; reflexivity|].
+  split; [apply strict_ascb_ok; reflexivity|].
+  split; [repeat constructor; vm_compute; discriminate|].
+  split; [vm_compute; reflexivity|].
+  eexists; split; [vm_compute; reflexivity|vm_compute; reflexivity].
 Qed.
